@@ -186,6 +186,42 @@ CHECKS = {
         "ValueError; block names non-empty.",
         "4/C14",
     ),
+    "C06": (
+        "Hypothesis-generated binned layouts (explicit begin/end, empty bins, gaps, 1-d/2-d grids, dtypes) plus an "
+        "enumerated layout grid; differential oracle: dense kernels per bin, bit for bit; preservation invariants",
+        "Generated-input differential search: for every bin the event values of the converted coordinate must equal, "
+        "bit for bit, the dense kernel chain applied to that bin's events with its pixel's geometry; the bin-edge "
+        "coordinate is converted by the same function; weights, variances, event order, bin membership, masks and "
+        "unrelated coordinates are preserved and every buffer of the input is bitwise unchanged.",
+        "Trusted: the dense kernels (verified against closed forms by C01/C05/C04). Geometry coordinates are kept in the "
+        "dim order of the data (scipp refuses transposed event coordinates); raw begin/end indices may be compacted.",
+        "4/C06",
+    ),
+    "C09": (
+        "Hypothesis-generated call recipes with aliasing unit/dtype choices and deep argument snapshots; generated "
+        "call histories (factory calls interleaved with mutations) checked against pristine expectations",
+        "Generated-input search with snapshot and history oracles: 22 recipes covering 210 public callables draw "
+        "arguments (incl. the units/dtypes that make internal copy=False conversions aliasing), freeze every argument "
+        "before the call and compare after it (also when it raises); histories of factory/lookup calls and mutations of "
+        "their results must leave fresh results equal to an independent pristine source (CSV re-parse, subprocess "
+        "snapshot, constructor arguments); a registry meta-check fails if a new public callable has no recipe.",
+        "Trusted: vf/ref/snapshot.py deep freeze/diff; vf/ref/csvtab.py. 10 public names are explicitly excluded "
+        "(plotting / repr helpers), listed in the evidence.",
+        "4/C09",
+    ),
+    "C18": (
+        "Hypothesis-generated cylinders, rays, detectors and materials vs an independent ray-cylinder reference "
+        "(Gram-Schmidt frame, 50-digit arithmetic), analytic moments, a fine product quadrature; metamorphic rigid "
+        "motions and end swap",
+        "Generated-input search against geometric reference models: path lengths vs an exact ray/solid intersection "
+        "(conditioning-aware tolerance), quadrature points inside the solid with positive weights summing to the volume "
+        "and exact low-degree moments, transmission in (0,1], = 1 without attenuation, decreasing with density, "
+        "agreement with a fine reference quadrature and invariance under rigid motions / other-end description within "
+        "the calibrated accuracy of each quadrature kind.",
+        "Trusted: vf/ref/geom.py. Polynomial exactness only to degree 1 (3 for 'cheap') by design of the rules; "
+        "weights sum to the volume to 1e-6 (tabulated 8-digit rules); 'mc' kind excluded (random).",
+        "4/C18",
+    ),
 }
 
 NOT_YET = "check not built yet (work in progress; every property is planned to be claimed, see DESIGN.md section 4)"
